@@ -103,7 +103,7 @@ def h_binop(X, ins):
         r = x * y
     elif tok == '/':
         if isf:
-            r = x / y
+            r = w.fdiv(x, y)
         else:
             X.oblige('div0', y != 0, ins['pos'])
             r = go_div(x, y)
@@ -191,14 +191,29 @@ def ownership_check(X, lv, ins):
     c = X.V.contracts['funcs'].get(X.V.fnkey)
     if c is None or 'worker' not in c['flags']:
         return
+    top = X.w.prog.funcs[X.V.fnkey]
+    held = X.heap.get(('ghost', 'lock_Lock', I)) - X.heap.get(('ghost', 'lock_Unlock', I)) > X.V.entry_lock_depth
+    guarded = set(c.get('guarded', []))
+    if lv.kind == 'fld':
+        # store into a field of an object: the object must not be one a captured variable points to
+        sname, ref, fname = lv.data
+        for fv in top['freevars']:
+            uk, e = X.w.prog.under(fv['type'])
+            if e['kind'] != 'ptr' or fv['name'] in guarded:
+                continue
+            sp = X.w.prog.struct_of_ptr(e['elem'])
+            if sp is None or sp[0] != sname:
+                continue
+            p = z3.Const('p_' + fv['name'], I)
+            shared = X.heap.get(('cell', e['elem']))[p]
+            X.oblige('ownership', z3.Or(held, ref != shared), ins.get('pos', ''), label='shared_object.%s.%s' % (fv['name'], fname),
+                     text='worker writes field %s of the object the captured variable %s points to without holding a lock' % (fname, fv['name']))
+        return
     if lv.kind != 'cell':
         return
     ty, ref = lv.data
     if X.is_local_cell(ref):
         return
-    top = X.w.prog.funcs[X.V.fnkey]
-    held = X.heap.get(('ghost', 'lock_Lock', I)) - X.heap.get(('ghost', 'lock_Unlock', I)) > X.V.entry_lock_depth
-    guarded = set(c.get('guarded', []))
     for fv in top['freevars']:
         uk, e = X.w.prog.under(fv['type'])
         if e['kind'] != 'ptr' or e['elem'] != ty or fv['name'] in guarded:
